@@ -69,7 +69,9 @@ def time0():
     """start time spec: None or (mjd, frac) -- a few instants right at leap seconds included"""
     leap = st.sampled_from([(57753, 0.99999), (57753, 0.9999884259259259), (57754, 0.0), (41498, 0.99998),
                             (56108, 0.999995), (51544, 0.5)])
-    gen = st.tuples(st.integers(40000, 70000), st.floats(0.0, 1.0, exclude_max=True, allow_nan=False))
+    # from 1972-07 on: before 1972 UTC had a variable rate against TAI ("rubber seconds"), where astropy's UTC<->TAI
+    # round trip is only good to ~1e-9 s -- outside what any property here is about
+    gen = st.tuples(st.integers(41500, 70000), st.floats(0.0, 1.0, exclude_max=True, allow_nan=False))
     return st.one_of(leap, gen, gen).map(lambda t: {"mjd": t[0], "frac": t[1]})
 
 
